@@ -41,7 +41,7 @@ use std::task::{Context, Poll};
 
 pub const META: Meta = Meta {
     level: "model_checking",
-    rule: "per configuration (max_substreams in {1,2}, max_buffer_len in {1,2}, Block|ResetStream): BFS over all histories of remote Open(next id)/Data(s,1 tagged byte)/Close(s)/Reset(s) frames and local poll_inbound/poll_outbound/read(s)/close(s)/drop(s)/flush calls on the real Multiplex (a call = poll, re-polled while the muxer yielded after pulling frames), states deduplicated on (reference model, wire queue, held handles). Non-trivial = states in which a limit was in effect: an Open was refused, a buffer reached max_buffer_len+1 (blocked) or overflowed (reset), or an outbound open was delayed by the limit.",
+    rule: "per configuration (max_substreams in {1,2}, max_buffer_len in {1,2}, Block|ResetStream): BFS over all histories of remote Open(next id)/Data(s,1 tagged byte)/Close(s)/Reset(s) frames and local poll_inbound/poll_outbound/read(s)/close(s) (up to twice per handle)/drop(s)/flush calls on the real Multiplex (a call = poll, re-polled while the muxer yielded after pulling frames), states deduplicated on (reference model, wire queue, held handles). Non-trivial = states in which a limit was in effect: an Open was refused, a buffer reached max_buffer_len+1 (blocked) or overflowed (reset), or an outbound open was delayed by the limit.",
     explanation: "The wire hands the muxer one frame per read, so the frames pulled per call are known; the model classifies every pulled frame; API results are compared step by step; after every step a drain suffix on a replayed copy judges eventual delivery / Reset-on-the-wire. An un-deduplicated DFS companion re-checks all sequences to a smaller depth.",
     assumptions: &[
         "remote is well-formed (fresh ids, no frames on a stream after its own Reset, no Data after its own Close); hostile framing is C25",
@@ -215,6 +215,9 @@ struct St {
     /// ResetStream: buffer exceeded max_buffer_len
     overflow: bool,
     l_closed: bool,
+    /// number of local close() calls on the handle (a second close of an already closed
+    /// handle is part of the alphabet)
+    l_closes: u8,
     /// remote has seen our Open on the wire (local streams only)
     announced: bool,
     /// a limit was in effect for this stream (vacuity / non-trivial rule)
@@ -642,7 +645,7 @@ impl System for Sys {
             if !st.eof {
                 v.push(Act::Read(k.0, k.1));
             }
-            if !st.l_closed {
+            if st.l_closes < 2 {
                 v.push(Act::Close(k.0, k.1));
             }
             v.push(Act::Drop(k.0, k.1));
@@ -746,7 +749,9 @@ impl Sys {
                     Poll::Ready(Err(e)) => return Err(format!("unexpected-error close :: stream {k:?}: {e}")),
                     Poll::Pending => return Err(format!("close-pending :: close of stream {k:?} stays Pending although the wire accepts everything")),
                 }
-                self.streams.get_mut(&k).unwrap().l_closed = true;
+                let st = self.streams.get_mut(&k).unwrap();
+                st.l_closed = true;
+                st.l_closes += 1;
             }
             Act::Drop(n, li) => {
                 let k = (*n, *li);
@@ -787,7 +792,7 @@ impl Sys {
                 st.buf.len(),
                 st.eof,
                 st.overflow,
-                st.l_closed,
+                st.l_closes,
                 st.announced
             );
         }
